@@ -971,6 +971,48 @@ fn gen(seed: u64, n: usize, profile: &str) {
                 h.push(list(vec![atom("poll")]));
                 list(vec![atom("complete"), c.sexp(), list(h)])
             }
+            "mjoin" => {
+                // several tasks awaiting clones of ONE JoinHandle, registered in an order that differs from their creation
+                // order (each waiter first awaits 0-2 requests of its own, resolved in a random order, so that its waker is
+                // re-allocated before it registers with the handle); then the joined task ends (resolve / drop = eviction):
+                // the waiters' follow-up effects must come out in registration order — a function of the history alone
+                let k = 2 + g.r.below(5) as u32;
+                let mut is = vec![Instr::Spawn(0, vec![Instr::Req(1, 9, Expr::Lit(0))])];
+                let mut own: Vec<usize> = vec![]; // request index -> nothing, just count
+                let mut next_req = 1usize; // request 0 is the worker's
+                let mut waiter_reqs: Vec<usize> = vec![];
+                for i in 1..=k {
+                    let mut body = vec![];
+                    let n_own = g.r.below(3);
+                    for _ in 0..n_own {
+                        body.push(Instr::Req(2, i, Expr::Lit(0)));
+                        waiter_reqs.push(next_req);
+                        own.push(next_req);
+                        next_req += 1;
+                    }
+                    body.push(Instr::Await(0));
+                    body.push(Instr::Notify(i, Expr::Lit(i as i64)));
+                    if g.r.chance(1, 3) {
+                        body.push(Instr::Emit(10, Expr::Lit(i as i64)));
+                    }
+                    is.push(Instr::Spawn(i, body));
+                }
+                // requests appear one per waiter at a time: address them by the index they will get (emission order); a
+                // waiter's second request only exists after its first was resolved, so unknown indices are simply `noreq`
+                let mut h = vec![];
+                let total = next_req + 3;
+                let mut order: Vec<usize> = (1..total).collect();
+                for i in (1..order.len()).rev() {
+                    let j = g.r.below(i as u64 + 1) as usize;
+                    order.swap(i, j);
+                }
+                for r in order.iter().chain(order.iter()) {
+                    h.push(list(vec![atom("res"), atom(r), atom(0)]));
+                }
+                h.push(if g.r.chance(3, 4) { list(vec![atom("res"), atom(0), atom(0)]) } else { list(vec![atom("drop"), atom(0)]) });
+                h.push(list(vec![atom("poll")]));
+                list(vec![atom("direct"), Cmd::Task(is).sexp(), list(h)])
+            }
             "fanout" => {
                 // the plain two-stage chain stream(a).then_stream(|x| stream(b)): 9-24 items on the outer stream while the inner
                 // streams stay open; judged by the fan-out clause of the `ext` oracle (one new inner stream per item)
